@@ -67,10 +67,23 @@ Inductive ccase :=
   (* converter + updater through the real pipeline: ingresses in the order of the API list;
      observed per host (sorted by hostname): app-root, RedirectHost, RedirectHostRegex *)
 | CHosts (id : N) (prefixes : list string) (ings : list hing_in)
-         (observed : list (string * (string * (string * string)))).
+         (observed : list (string * (string * (string * string))))
+  (* Frontend.AcquireAuthBackendName on a fresh frontend with cap ports: granted? per request *)
+| CAlloc (id : N) (cap : nat) (requests : list string) (observed : list bool)
+  (* updater.findBackend of oauth through the real pipeline: the hosts of the haproxy model
+     (hostname, [(path, namespace of the backend, backend id)]) and, per protected path,
+     (own host, namespace, uri prefix, the auth backend configured if any) *)
+| COAuth (id : N) (visit : list ohost) (queries : list (string * string * string * option string))
+  (* server-alias through the real pipeline: named hosts (hostname, alias), the backend of
+     the root path of every host, and per name the backend that answers http://name/ *)
+| CAlias (id : N) (visit : list (string * string)) (roots : list (string * string))
+         (queries : list (string * option string)).
 
 Definition case_id (c : ccase) : N :=
-  match c with CSort i _ _ | CKeys i _ _ _ | CMapper i _ _ _ _ _ | CHosts i _ _ _ => i end.
+  match c with
+  | CSort i _ _ | CKeys i _ _ _ | CMapper i _ _ _ _ _ | CHosts i _ _ _
+  | CAlloc i _ _ _ | COAuth i _ _ | CAlias i _ _ _ => i
+  end.
 
 Definition mk_ing (ns name : string) (stamp : Z) : ingress :=
   {| i_ns := ns; i_name := name; i_stamp := stamp; i_class := None; i_rules := []; i_tls := [] |}.
@@ -116,6 +129,17 @@ Definition case_ok (c : ccase) : bool :=
       list_eqb str_list_eqb (conflicts_of [] cs) conflicts
   | CHosts _ prefixes ings obs =>
       list_eqb host_obs_eqb (hosts_obs prefixes (map mk_hing ings)) obs
+  | CAlloc _ cap requests obs =>
+      list_eqb Bool.eqb (map snd (alloc_auth cap requests)) obs
+  | COAuth _ visit queries =>
+      forallb (fun q => match q with
+                        | (own, ns, prefix, obs) => ostr_eqb (find_oauth visit own ns prefix) obs
+                        end) queries
+  | CAlias _ visit roots queries =>
+      forallb (fun q => ostr_eqb (match alias_owner visit (fst q) with
+                                  | Some h => assoc h roots
+                                  | None => assoc (fst q) roots
+                                  end) (snd q)) queries
   end.
 
 Definition mismatches (cs : list ccase) : list N :=
